@@ -111,6 +111,12 @@ def step (_ : Unit) (line : String) : Unit × String :=
         let ps := if mt.isEmpty then [] else ctParams rest.length rest []
         s!"{toHex mt} {pairsStr (mmOfList ps)}"
       | none => "bad-op"
+    | ["lim", c, m] =>
+      -- content_limits(cached_settings): security.content_length_limit / multipart_form_data_limit are configured in KiB
+      let kb := fun (s : String) (d : Nat) => if s == "-" then some d else s.toNat?
+      match kb c Gen.dfltContentLimitKiB, kb m Gen.dfltMultipartLimitKiB with
+      | some c, some m => s!"limits {c * Gen.contentLimitUnit} {m * Gen.multipartLimitUnit}"
+      | _, _ => "bad-op"
     | ["form", h] =>
       match parseHex h with
       | some s => let (pairs, ok) := parseForm s; s!"{boolStr ok} {pairsStr (mmOfList pairs)}"
